@@ -674,7 +674,10 @@ func (f *fileConfig) Reload(opts ...ReloadedConfigDataOption) error {
 	}
 
 	// if nothing's changed, we're fine
-	if f.mainHash == cfg.mainHash && f.rulesHash == cfg.rulesHash {
+	f.mux.RLock()
+	unchanged := f.mainHash == cfg.mainHash && f.rulesHash == cfg.rulesHash
+	f.mux.RUnlock()
+	if unchanged {
 		return nil
 	}
 
@@ -684,9 +687,10 @@ func (f *fileConfig) Reload(opts ...ReloadedConfigDataOption) error {
 	f.mainHash = cfg.mainHash
 	f.rulesConfig = cfg.rulesConfig
 	f.rulesHash = cfg.rulesHash
+	callbacks := append([]ConfigReloadCallback(nil), f.callbacks...)
 	f.mux.Unlock() // can't defer -- we don't want callbacks to deadlock
 
-	for _, cb := range f.callbacks {
+	for _, cb := range callbacks {
 		cb(cfg.mainHash, cfg.rulesHash)
 	}
 	return nil
@@ -1164,6 +1168,9 @@ func (f *fileConfig) GetParentIdFieldNames() []string {
 }
 
 func (f *fileConfig) GetConfigMetadata() []ConfigMetadata {
+	f.mux.RLock()
+	defer f.mux.RUnlock()
+
 	ret := make([]ConfigMetadata, 2)
 	ret[0] = ConfigMetadata{
 		Type:     "config",
